@@ -109,9 +109,10 @@ class ScientificFloat:
             return '∞' if self.value3.mantissa >= 0 else '-∞'
         pre_decimal_positions = 0 if np.abs(self.value3.mantissa3) < 1 else len(str(abs(self.value3.mantissa3)).split('.')[0])
         post_decimal_positions = max(self.precision - pre_decimal_positions, 0)
-        pre_decimal = int(self.value3.mantissa3)
+        mantissa3 = round(self.value3.mantissa3, post_decimal_positions)
+        pre_decimal = int(mantissa3)
         pre_decimal_str = f'{pre_decimal:d}'
-        post_decimal = int(np.round(np.abs(self.value3.mantissa3) % 1 * 10**(post_decimal_positions)))
+        post_decimal = int(np.round(np.abs(mantissa3) % 1 * 10**(post_decimal_positions)))
         post_decimal_str = '' if post_decimal_positions == 0 else f'.{post_decimal:0{post_decimal_positions}d}'
         return f'{pre_decimal_str}{post_decimal_str}{self.exp_extension(self.value3.exponent3)}{self.exp_prefix(self.value3.exponent3)}{self.unit}'
 
